@@ -160,6 +160,36 @@ pub mod proofs {
         kani::cover!(r.is_ok(), "a lookup succeeds");
     }
 
+    /// thorough tier: three entries (duplicates, prefixes of each other and of the key in more orders)
+    #[kani::proof]
+    #[kani::unwind(8)]
+    pub fn c07_t_env_var_three_entries() {
+        let e0 = any_cstr();
+        let e1 = any_cstr();
+        let e2 = any_cstr();
+        let entries: [[u8; SLEN]; 3] = [e0, e1, e2];
+        let envp: [*const u8; 4] = [e0.as_ptr(), e1.as_ptr(), e2.as_ptr(), core::ptr::null()];
+        unsafe { env::verif_set_env(0, core::ptr::null(), envp.as_ptr()) };
+        let kbuf = any_cstr();
+        let kl = clen(&kbuf);
+        kani::assume(kl <= 2 && key_ok(&kbuf[..kl]));
+        let key = unsafe { UnixStr::from_bytes_unchecked(&kbuf[..=kl]) };
+        let r = env::var_unix(key);
+        match spec_lookup(&entries, 3, &kbuf[..kl]) {
+            Some(v) => {
+                assert!(r.is_ok(), "found_when_an_entry_name_equals_the_key");
+                let got = r.unwrap().as_slice();
+                assert!(got.len() == v.len() + 1, "value_length_exact");
+                let mut i = 0;
+                while i < v.len() {
+                    assert!(got[i] == v[i], "value_bytes_exact");
+                    i += 1;
+                }
+            }
+            None => assert!(matches!(r, Err(VarError::Missing)), "missing_when_no_entry_name_equals_the_key"),
+        }
+    }
+
     #[kani::proof]
     #[kani::unwind(8)]
     pub fn c07_args() {
